@@ -1,6 +1,7 @@
 import CfbVerif.Phys.Mini
 import CfbVerif.Phys.Api
 import CfbVerif.Phys.ApiInv
+import CfbVerif.Phys.Cycle
 /-!
 # C15 — released space is reused: repeating a net-zero cycle does not grow the file
 
@@ -94,6 +95,118 @@ theorem C15_grow_only_when_full (v4 : Bool) (maxBuf : Nat) (ops : List CfbVerif.
     ((prun (PState.create v4 maxBuf) ops).p.fat[id]? = some FREE ∨ (prun (PState.create v4 maxBuf) ops).p.fat.size ≤ id) :=
   let r := inv_allocateSector (inv_reachable v4 maxBuf ops small) h
   ⟨r.2.2.2, r.2.2.1⟩
+
+/-! ### a whole cycle, for streams of at least 4096 bytes -/
+
+/-- where the pair for slot `s` sits in the start table -/
+theorem startIn_mem {starts : List (Nat × Nat)} {s : Nat} (h : startIn starts s ≠ END) :
+    (s, startIn starts s) ∈ starts := by
+  unfold startIn at h ⊢
+  cases hf : starts.find? (·.1 == s) with
+  | none => rw [hf] at h; exact absurd rfl h
+  | some e =>
+    simp only [hf, Option.map_some, Option.getD_some]
+    have hm := List.mem_of_find?_eq_some hf
+    have hk := List.find?_some hf
+    simp only [beq_iff_eq] at hk
+    obtain ⟨a, b⟩ := e
+    simp only at hk
+    subst hk
+    exact hm
+
+/-- **remove a stream of at least 4096 bytes and write it again at the same size: the file has the
+same length as before** — from *any* state `g1` of the store machine that satisfies the
+allocation-level invariant (`JR`: every state reachable from a fresh file does, `regLen_reachable`),
+in both versions, whatever else the file holds.  The removal puts exactly the stream's
+`⌈len / S⌉` sectors on the free list (`freeChain_appends` with `RegLen`), and the re-creation takes
+its `⌈len / S⌉` sectors from the free list (`resize_fresh_reuse`).  Consequently every repetition
+of the cycle *create - set_len(n) - remove* after the first leaves the file at the length the
+first one ended with: "unchanged from the second repetition on", for streams above the cutoff. -/
+theorem C15_regular_cycle {g1 g2 g2' g3 : G} {s : Nat} (j : JR g1.p g1.L)
+    (hn : CUTOFF ≤ g1.L s) (hstart : startOf g1.p s ≠ END)
+    (hfree : gstep g1 (.free s) = .ok g2) (hcreate : gstep g2 (.create s) = .ok g2')
+    (hresize : gstep g2' (.resize s (g1.L s)) = .ok g3)
+    (hb1 : g1.p.fat.size ≤ MAXREG + 1) (hb2 : g2.p.fat.size ≤ MAXREG + 1) :
+    g3.p.numSectors = g1.p.numSectors ∧ g2.p.numSectors = g1.p.numSectors := by
+  -- the stream's chain
+  have hmem : (s, startOf g1.p s) ∈ g1.p.starts := startIn_mem hstart
+  obtain ⟨_, l, cl, hlen⟩ := j.rl (s, startOf g1.p s) hmem hn
+  have hhead : startOf g1.p s ∈ heads g1.p g1.L := by
+    unfold heads regs
+    apply List.mem_append_right
+    apply List.mem_map.mpr
+    refine ⟨(s, startOf g1.p s), List.mem_filter.mpr ⟨hmem, ?_⟩, rfl⟩
+    simp [isRegStart, hn, hstart]
+  have nd := cl.nodup j.jc.nc.ns hhead
+  -- the removal
+  obtain ⟨q, hq, hq2⟩ := obind_ok hfree
+  cases hq2
+  unfold freeStream at hq
+  simp only [bind, pure] at hq
+  rw [if_neg (by omega)] at hq
+  obtain ⟨q1, hq1, hq⟩ := obind_ok hq
+  cases hq
+  have r := freeChain_appends l (startOf g1.p s) g1.p q1 _ cl nd hb1 hq1
+  have j2 := jr_gstep hfree j trivial hb2
+  -- the re-creation
+  simp only [gstep] at hcreate
+  split at hcreate
+  · cases hcreate
+    obtain ⟨q3, hq3, hq4⟩ := obind_ok hresize
+    cases hq4
+    have hL0 : upd (upd g1.L s 0) s 0 s = 0 := upd_self _ _ _
+    simp only at hq3
+    rw [hL0] at hq3
+    have finv : FatInv (setStart (dropStart q1 s) s END) := by
+      have f := j2.jc.inv.fat
+      exact ⟨f.size, f.secs, f.freeFree, f.freeNodup⟩
+    have hS : (setStart (dropStart q1 s) s END).S = g1.p.S := by
+      have : q1.v4 = g1.p.v4 := freeChain_v4 _ hq1
+      simp only [P.S, setStart, dropStart, this]
+    have := resize_fresh_reuse finv (by rw [startOf_eq]; exact startIn_setStart _ _ _) hn
+      (by
+        rw [hS]
+        show (g1.p.S + g1.L s - 1) / g1.p.S ≤ q1.free.length
+        have hlen' : l.length = (g1.L s + g1.p.S - 1) / g1.p.S := hlen
+        rw [r.1, List.length_append, hlen']
+        have : g1.p.S + g1.L s - 1 = g1.L s + g1.p.S - 1 := by omega
+        rw [this]; omega)
+      hq3
+    exact ⟨by rw [this.1]; exact r.2, r.2⟩
+  · cases hcreate
+
+/-- the same for every state reachable from a fresh file by stream-level operations -/
+theorem C15_regular_cycle_reachable (v4 : Bool) (ops : List GOp) {g2 g2' g3 : G} {s : Nat} :
+    let g0 : G := { p := Phys.create v4, L := fun _ => 0 }
+    let g1 := grun g0 ops
+    WritesInRange g0 ops → g1.p.fat.size ≤ MAXREG + 1 → g2.p.fat.size ≤ MAXREG + 1 →
+    CUTOFF ≤ g1.L s → startOf g1.p s ≠ END →
+    gstep g1 (.free s) = .ok g2 → gstep g2 (.create s) = .ok g2' → gstep g2' (.resize s (g1.L s)) = .ok g3 →
+    g3.p.numSectors = g1.p.numSectors ∧ g2.p.numSectors = g1.p.numSectors := by
+  intro g0 g1 hw hb1 hb2 hn hs hf hc hr
+  exact C15_regular_cycle (regLen_reachable v4 ops hw hb1) hn hs hf hc hr hb1 hb2
+
+/-- the three steps of the cycle succeed and end at the length they started from (as a computation) -/
+def cycleRuns (g1 : G) (s n : Nat) : Bool :=
+  match gstep g1 (.free s) with
+  | .ok g2 =>
+    match gstep g2 (.create s) with
+    | .ok g2' =>
+      match gstep g2' (.resize s n) with
+      | .ok g3 => g3.p.numSectors == g1.p.numSectors
+      | _ => false
+    | _ => false
+  | _ => false
+
+/-- non-vacuity: after a history with a stream of 9000 bytes beside a small one, the hypotheses hold
+and the three steps of the cycle succeed -/
+example :
+    writesInRangeB { p := Phys.create false, L := fun _ => 0 } [.create 1, .resize 1 9000, .create 2, .resize 2 100] = true ∧
+    (grun { p := Phys.create false, L := fun _ => 0 } [.create 1, .resize 1 9000, .create 2, .resize 2 100]).p.fat.size ≤ MAXREG + 1 ∧
+    CUTOFF ≤ (grun { p := Phys.create false, L := fun _ => 0 } [.create 1, .resize 1 9000, .create 2, .resize 2 100]).L 1 ∧
+    startOf (grun { p := Phys.create false, L := fun _ => 0 } [.create 1, .resize 1 9000, .create 2, .resize 2 100]).p 1 ≠ END ∧
+    cycleRuns (grun { p := Phys.create false, L := fun _ => 0 } [.create 1, .resize 1 9000, .create 2, .resize 2 100]) 1 9000 = true := by
+  decide
 
 /-- non-vacuity: a concrete state with a free sector satisfies the hypotheses -/
 def exampleState : P :=
